@@ -21,6 +21,7 @@ package hessian
 import (
 	"bytes"
 	"io"
+	"math"
 	"reflect"
 	"unsafe"
 )
@@ -125,7 +126,12 @@ func (e *Encoder) WriteData(data interface{}) (int, error) {
 		value := data.(int32)
 		return e.writeInt(value)
 	case reflect.Int: // as int
-		value := int32(data.(int))
+		i := data.(int)
+		if i < math.MinInt32 || i > math.MaxInt32 {
+			// the hessian int is 32-bit: refuse instead of silently truncating
+			return 0, newCodecError("WriteData", "int value %d does not fit the 32-bit hessian int, use int64", i)
+		}
+		value := int32(i)
 		return e.writeInt(value)
 	case reflect.Uint8: // as int
 		value := int32(data.(uint8))
